@@ -58,6 +58,7 @@ class SigLeaf(Leaf):
     def update(self, parent):
         mh = self.data.minhash
         parent.data.update(mh)
+        parent._dirty = True
         min_n_below = parent.metadata.get("min_n_below", sys.maxsize)
         min_n_below = min(len(mh), min_n_below)
 
